@@ -269,7 +269,7 @@ fn bookkeeping(ctx: &mut Ctx) {
                     }
                 }
                 Op::AcceptFails(i, which) => {
-                    let tcp: Vec<String> = model.iter().filter(|m| m.starts_with("tcp://")).cloned().collect();
+                    let tcp: Vec<String> = model.iter().cloned().collect();
                     if tcp.is_empty() {
                         continue;
                     }
